@@ -1543,7 +1543,8 @@ class Fxp():
     def __getitem__(self, index):
         # return Fxp(self.val[index], like=self, raw=True)
         y = Fxp(like=self)
-        y.val = self.val[index]
+        # an element is held like every other scalar value (a 0-d array of the same type), a sub-array stays a view
+        y.val = np.asarray(self.val[index], dtype=self.val.dtype)
         return y
 
     def __setitem__(self, index, value):
